@@ -140,7 +140,7 @@ def check_levels(case, acc):
     n = len(base)
     problems = []
 
-    passed = {"lv": tuple(lv) if case.get("dtype") == "tuple-levels" else lv}  # (the closure below must not capture `lv` itself)
+    passed = {"lv": tuple(lv) if case.get("dtype") == "tuple-levels" else lv, "lv0": list(base[1:]) + list(base[:1])}  # (the closure below must not capture `lv` itself)
 
     built = []
 
@@ -167,7 +167,8 @@ def check_levels(case, acc):
             if labs != ["Intercept"] + [f"{call}[{l}]" for l in natural[1:]] or not all(np.array_equal(X[:, j + 1], ind(l)) for j, l in enumerate(natural[1:])):
                 problems.append(("default-reference", f"'{call}' ({case.get('dtype')} column): columns {labs}; expected the first level {natural[0]} as reference"))
     for call, kind in (("C(v, levels=lv)", "t"), ("T(v, levels=lv)", "t"), ("C(v, Treatment, levels=lv)", "t"), ("S(v, levels=lv)", "s"), ("C(v, Sum, levels=lv)", "s"),
-                       ("C(S(v), levels=lv)", "s"), ("C(C(v, Sum), levels=lv)", "s"), ("C(T(v), levels=lv)", "t"), ("C(C(v), levels=lv)", "t")):
+                       ("C(S(v), levels=lv)", "s"), ("C(C(v, Sum), levels=lv)", "s"), ("C(T(v), levels=lv)", "t"), ("C(C(v), levels=lv)", "t"),
+                       ("C(T(v, levels=lv0), levels=lv)", "t"), ("C(S(v, levels=lv0), levels=lv)", "s")):  # the outer levels are the ones in force
         # full coding: one indicator per level in the order given
         labs, X = design(f"y ~ 0 + {call}")
         if kind == "t":
